@@ -190,7 +190,6 @@ CHECKS["C07"] = {
 }
 
 CHECKS["C15"] = {
-    "category": "fault_enumeration",
     "technique": "TLA+ Writer model with fault actions (SinkFails, FlushFails) model-checked (MC_WriterFault); complete enumeration of the "
                  "failing sink / source call index k on real runs, each validated by TLC trace validation (Writer_Trace, LZ4Frame_Trace_C15)",
     "text": "For every (options, input, history) case the fault-free run fixes the number N of calls on the underlying writer; every k in "
